@@ -15,7 +15,12 @@ type GetFailSpec struct {
 // Op is one node-side call (through types.SubmitWithHelpers / types.RetrieveWithHelpers), made on both
 // paths, or a harness action on both backings.
 type Op struct {
-	Kind string `json:"kind"` // submit | retrieve | advance
+	Kind string `json:"kind"` // submit | retrieve | advance | call
+
+	// call: one of the interface methods without a node-side helper
+	Method   string `json:"method,omitempty"`    // Submit | GetProofs | Validate | Commit | GasPrice | GasMultiplier
+	IDSel    string `json:"id_sel,omitempty"`    // last | last+unknown | unknown | none: the ids given to GetProofs / Validate
+	ProofSel string `json:"proof_sel,omitempty"` // "" (genuine proofs) | /swap | /corrupt | /short
 
 	// submit
 	Sizes []int   `json:"sizes,omitempty"`
@@ -61,11 +66,14 @@ func (o Op) ctx() string {
 	return o.Ctx
 }
 
-func real() Outcome               { return Outcome{Kind: "real"} }
-func errOut(b, f string) Outcome  { return Outcome{Kind: "err", Err: &ErrSpec{Base: b, Form: f}} }
-func submit(sizes ...int) Op      { return Op{Kind: "submit", Sizes: sizes, Out: real(), Gas: 0.002} }
-func retrieve(sel string) Op      { return Op{Kind: "retrieve", HSel: sel, Out: real()} }
-func (o Op) with(out Outcome) Op  { o.Out = out; return o }
+func real() Outcome              { return Outcome{Kind: "real"} }
+func errOut(b, f string) Outcome { return Outcome{Kind: "err", Err: &ErrSpec{Base: b, Form: f}} }
+func submit(sizes ...int) Op     { return Op{Kind: "submit", Sizes: sizes, Out: real(), Gas: 0.002} }
+func retrieve(sel string) Op     { return Op{Kind: "retrieve", HSel: sel, Out: real()} }
+func (o Op) with(out Outcome) Op { o.Out = out; return o }
+func call(method, idSel, proofSel string, sizes ...int) Op {
+	return Op{Kind: "call", Method: method, IDSel: idSel, ProofSel: proofSel, Sizes: sizes, Out: real(), Gas: 0.75}
+}
 func (o Op) probe() Op            { o.Probe = true; return o }
 func (o Op) inCtx(mode string) Op { o.Ctx = mode; return o }
 func (o Op) getFail(c int, out Outcome) Op {
@@ -131,7 +139,7 @@ var cfgVariants = []BackingCfg{
 func submitErrSpecs() []ErrSpec {
 	var out []ErrSpec
 	for _, s := range sentinels {
-		for _, f := range []string{"plain", "wrap", "wrap2", "look-prefix", "look-embed", "sametext"} {
+		for _, f := range []string{"plain", "wrap", "wrap2", "prewrap", "midwrap", "look-prefix", "look-embed", "sametext"} {
 			out = append(out, ErrSpec{s.Name, f})
 		}
 	}
@@ -204,6 +212,34 @@ func genEnumerated(rng *rand.Rand) []Case {
 	}
 	add("E-ctx", "submit-real/precancel", 1000, "none", submit(10, 20), submit(5, 6, 7).inCtx("precancel").probe(), submit(9), retrieve("last"))
 	add("E-ctx", "retrieve-real/precancel", 1000, "none", submit(10, 20), retrieve("last").inCtx("precancel").probe(), retrieve("last"))
+	// (6) the interface methods that have no node-side helper: values and failure come back as for a direct call
+	some := []ErrSpec{{"generic", "plain"}, {"ErrBlobNotFound", "wrap"}, {"ErrTxTimedOut", "plain"}, {"ErrContextCanceled", "prewrap"}}
+	for _, back := range []string{"none", "same", "half"} {
+		add("E-method", "Submit/"+back, 100, back, submit(10, 20), call("Submit", "", "", 30, 40).probe(), retrieve("last"), call("Submit", "", "", 60, 60), retrieve("last"),
+			call("Submit", "", "", 101, 1), call("Submit", "", ""), call("Submit", "", "", 0, 0), retrieve("last"))
+	}
+	for _, sp := range some {
+		add("E-method", "Submit/"+sp.String(), 1000, "none", submit(10, 20), call("Submit", "", "", 5, 6).with(errOut(sp.Base, sp.Form)).probe(), call("Submit", "", "", 7), retrieve("last"))
+	}
+	add("E-method", "Submit/partial", 1000, "none", submit(10, 20), call("Submit", "", "", 5, 6, 7).with(Outcome{Kind: "prefix", Prefix: 2}).probe(), retrieve("last"))
+	for _, sel := range []string{"last", "last+unknown", "unknown", "none"} {
+		add("E-method", "GetProofs/"+sel, 1000, "none", submit(3, 4, 5), call("GetProofs", sel, "").probe(), retrieve("last"))
+		for _, ps := range []string{"", "/swap", "/corrupt", "/short"} {
+			add("E-method", "Validate/"+sel+ps, 1000, "none", submit(3, 4, 5, 6, 7), call("Validate", sel, ps).probe(), retrieve("last"))
+		}
+	}
+	add("E-method", "GetProofs/many", 1000, "none", submit(smallSizes(rng, 300)...), call("GetProofs", "last", "").probe(), call("Validate", "last", "/corrupt"), call("Validate", "last", ""))
+	for _, sizes := range [][]int{{}, {0}, {1, 2, 3}, {1500, 0, 1}, smallSizes(rng, 300)} {
+		add("E-method", fmt.Sprintf("Commit/%d", len(sizes)), 1000, "none", submit(3), call("Commit", "", "", sizes...).probe())
+	}
+	for _, m := range []string{"GetProofs", "Validate", "Commit", "GasPrice", "GasMultiplier"} {
+		for _, sp := range some {
+			add("E-method", m+"/"+sp.String(), 1000, "none", submit(3, 4), call(m, "last", "", 1, 2).with(errOut(sp.Base, sp.Form)).probe(), call(m, "last", "", 1, 2))
+		}
+	}
+	for k := 0; k < 4; k++ {
+		add("E-method", fmt.Sprintf("Gas/%d", k), 1000, "none", call("GasPrice", "", "").probe(), call("GasMultiplier", "", ""), submit(3), call("GasMultiplier", "", ""), call("GasPrice", "", ""))
+	}
 	// (5) heights: with blobs, without, from the future (near, far, beyond 2^53, the largest), zero
 	for _, sel := range []string{"last", "gap", "zero", "cur", "future", "future-far", "future-2p53", "future-max"} {
 		add("E-height", sel, 1000, "none", submit(3, 4), Op{Kind: "advance", By: 3}, submit(5), retrieve(sel).probe(), retrieve("last"))
@@ -420,6 +456,39 @@ func genRandom(rng *rand.Rand, n int, withTriggers bool) []Case {
 					op.Ctx = []string{"cancel", "deadline"}[rng.Intn(2)]
 				default:
 					op.Ctx = "precancel"
+				}
+				cs.Ops = append(cs.Ops, op)
+			case p < 96: // one of the other interface methods
+				var op Op
+				sel := []string{"last", "last", "last+unknown", "none"}[rng.Intn(4)]
+				switch rng.Intn(6) {
+				case 0:
+					sizes := make([]int, rng.Intn(4))
+					for j := range sizes {
+						sizes[j] = rng.Intn(int(L) + 2)
+					}
+					op = call("Submit", "", "", sizes...)
+					op.Gas = []float64{0, 0.002, 1.5, -1}[rng.Intn(4)]
+					if q := rng.Intn(10); q == 0 {
+						sp := clean[rng.Intn(len(clean))]
+						op.Out = errOut(sp.Base, sp.Form)
+					} else if q == 1 && len(sizes) > 0 {
+						op.Out = Outcome{Kind: "prefix", Prefix: rng.Intn(len(sizes))}
+					}
+				case 1:
+					op = call("GetProofs", sel, "")
+				case 2:
+					op = call("Validate", sel, []string{"", "", "/swap", "/corrupt", "/short"}[rng.Intn(5)])
+				case 3:
+					op = call("Commit", "", "", smallSizes(rng, rng.Intn(5))...)
+				case 4:
+					op = call("GasPrice", "", "")
+				default:
+					op = call("GasMultiplier", "", "")
+				}
+				if op.Method != "Submit" && rng.Intn(8) == 0 {
+					sp := gets[rng.Intn(len(gets))]
+					op.Out = errOut(sp.Base, sp.Form)
 				}
 				cs.Ops = append(cs.Ops, op)
 			default:
